@@ -17,6 +17,7 @@ import warnings
 
 from harness.common import Run, coq_list
 from harness.translate import c13_calls
+from harness.props import c13_settings
 
 META = dict(
     technique="Coq theorems on the store-of-States + generator-tape model of Api/ApiModel.v (public calls as operation scripts: a script "
@@ -40,6 +41,11 @@ META = dict(
                "scipy_minimize as programs over named objects, the footprint of simulate, the kind of copy of the settings) from the "
                "python ast; Api/SrcProg*.v prove for every instance that they denote the scripts of Api/ApiCalls.v with the theorems' shape "
                "predicates (C13_src_*), and every recorded call is checked inside Coq to be an execution of the generated program. "
+               "Settings object (extension): algo/settings.py is modelled (Api/Settings.v: nested update, resolution, save/load, heap of "
+               "dictionary objects); C13_settings_*: explicit key wins / default kept / nested update / idempotence, ANY write sequence "
+               "through the deep copy at any depth leaves the caller's settings as they were; rule regenerated from the source "
+               "(harness/translate/settings.py -> GenSettings.v) and the model evaluated inside Coq on real constructions, algorithm "
+               "views, save/load and dictionary sharing for all 8 algorithm names (harness/props/c13_settings.py). "
                "Not covered by proof: pandas / joblib aliasing of caller tables and Data objects (snapshots only), the optimiser and "
                "samplers (arbitrary bodies in the theorems), n_jobs > 1, GPU. Trusted: Coq kernel, harness/recorder.py (wraps State "
                "methods and RNG entry points in-process), the canonical digests of tensors / tables / objects in this file.",
@@ -63,6 +69,8 @@ SRC_OBLIGATIONS = [
     "C13_src_estimate_pure", "C13_src_mcmc_call_clean", "C13_src_scipy_call_pure", "C13_src_simulate_pure", "C13_src_settings_copied", "C13_src_examples",
 ]
 OBLIGATIONS += SRC_OBLIGATIONS
+# the settings object itself (Api/Settings*.v; T1 harness/translate/settings.py, T2 harness/props/c13_settings.py)
+OBLIGATIONS += c13_settings.OBLIGATIONS
 
 
 def translate(run: Run) -> bool:
@@ -76,6 +84,7 @@ def translate(run: Run) -> bool:
     if not ok:
         # never leave the programs of an earlier run behind: the proofs must not be checked against a stale translation
         run.gen("GenC13", "(* the translation of this run FAILED (harness/translate/c13_calls.py): no program *)\n")
+    translate.settings_ok = c13_settings.translate(run)      # coq/gen/GenSettings.v (fails closed the same way)
     return ok
 
 
@@ -1259,10 +1268,28 @@ def main(run: Run):
     box, side = {}, Run("C13", run.tier, run.seed)       # the thread only collects; everything is merged in this thread
     th = threading.Thread(target=lambda: box.update(results=run_workers(side, seqs, 10 if thorough else 7, 1500 if thorough else 85)))
     th.start()
+    # the settings object (c13_settings.py): the implementation side runs while Coq proves (no recorder is installed yet),
+    # the Coq side runs beside the trace correspondence
+    sbox = {}
+
+    def guarded(f, *a):
+        try:
+            f(*a)
+        except Exception as e:  # noqa
+            import traceback
+            sbox["error"] = f"{type(e).__name__}: {e}\n{traceback.format_exc()[-1200:]}"
+    th_set = threading.Thread(target=guarded, args=(c13_settings.observe, run, thorough, sbox))
+    th_set.start()
+    th_vm = None
     try:
         ok_t = translate(run)
         run.prove("C13", OBLIGATIONS)
         run.log(f"proved {len(run.discharged)}/{len(OBLIGATIONS)} obligations")
+        th_set.join()           # before any recorder is installed in this process
+        if "error" in sbox:
+            run.broken("settings-tie", sbox.pop("error"), kind="broken-correspondence")
+        th_vm = threading.Thread(target=guarded, args=(c13_settings.compare, run, sbox))
+        th_vm.start()
         ok_tie, ok_src = build_tie(run, ok_t)
         if ok_tie:
             use_impl()
@@ -1276,6 +1303,12 @@ def main(run: Run):
             import traceback
             run.broken("customised-call-probe", f"{type(e).__name__}: {e}\n{traceback.format_exc()[-1200:]}", kind="broken-correspondence")
     finally:
+        th_set.join()
+        if th_vm is not None:
+            th_vm.join()
+            if "error" in sbox:
+                run.broken("settings-tie", sbox["error"], kind="broken-correspondence")
+            run.log("settings correspondence done")
         th.join()
         run.log("sequence oracle done")
         shutil.rmtree(SCRATCH, ignore_errors=True)
@@ -1296,6 +1329,8 @@ def replay(run: Run, path: str):
     use_impl()
     d = json.load(open(path))
     inp = d.get("input") or {}
+    if "ops" not in inp and "kwargs" in inp and "name" in inp:
+        return c13_settings.replay_one(run, inp)
     if "ops" not in inp:
         print("replay: this file records a broken obligation; re-running the check")
         return main(run)
